@@ -11,6 +11,7 @@
 (*   SetField(iid, path, value)     Dump(iid)           Eq(iid, jid)       *)
 (*   Bool(iid)   Load(cs)  SetEndian(cs, e)  AddType(cs)  (other object)   *)
 (*   EqPart(iid, member j, jid)  a union's structure member vs an instance *)
+(*   Append(iid, member j, value)  an array member grows in place          *)
 (***************************************************************************)
 EXTENDS SessionSpec, TLC, Json, IOUtils
 
@@ -31,6 +32,9 @@ NextInst(ev) ==
                               IF r.ok /\ ev.obs.status = "ok" THEN Append(inst, New(ev, r.v)) ELSE inst
     [] ev.ev = "SetField"  -> IF ev.obs.status # "ok" THEN inst
                               ELSE LET o == Find(ev.iid) IN Replace(ev.iid, [o EXCEPT !.val = UpdPath(o.val, ev.path, ev.value)])
+    \* an array member changed in place (list.append): like every other change it belongs to this instance alone (seed S103)
+    [] ev.ev = "Append"    -> LET o == Find(ev.iid) IN
+                              Replace(ev.iid, [o EXCEPT !.val.vals[ev.j].items = Append(@, ev.value)])
     [] OTHER -> inst        \* Dump, Eq, Bool, FailedParse, Load, SetEndian, AddType change no instance
 
 Clauses(ev, nxt) ==
